@@ -159,3 +159,4 @@ pub assume_specification<T> [ <[T] as AsRef<[T]>>::as_ref ] (s: &[T]) -> (r: &[T
 pub fn vp_mut_slice_as_ref<'a>(b: &'a mut [u8]) -> (r: &'a [u8])
     ensures r@ == old(b)@, final(b)@ == old(b)@,
 { &*b }
+
